@@ -34,6 +34,10 @@ class Awaiting:
 
     def __enter__(self):
         if self.deferred.is_awaiting:
+            # While something is only tried out, needing a value that is being
+            # computed means "not yet": whether it is a genuine cycle shows when
+            # the value is asked for in earnest
+            not_ready()
             raise DeferredCycle(self.deferred)
         self.deferred.is_awaiting = True
         Awaiting.awaiting_stack.append(self.deferred)
